@@ -109,7 +109,9 @@ def scenarios(draw):
             actions += [{'a': 'ccreate', 'obj': 0, 'v': 1, 'dt': 0.2}, {'a': 'cedit', 'obj': 0, 'v': 2, 'dt': 0.2}, {'a': 'cedit', 'obj': 0, 'v': 3, 'dt': 1.0}]
         actions += draw(st.lists(a_obj, min_size=0, max_size=3))
     return {'seed': draw(st.integers(0, 9999)), 'mode': mode, 'peering': peering, 'spec': spec, 'crd_present': draw(st.booleans()) or True,
-            'pre': pre, 'actions': actions, 'warmup': draw(st.sampled_from([0.0, 0.5, 2.0])), 'gc': draw(st.sampled_from(['never', 'never', 'per-action']))}
+            'pre': pre, 'actions': actions, 'warmup': draw(st.sampled_from([0.0, 0.5, 2.0])), 'gc': draw(st.sampled_from(['never', 'never', 'per-action'])),
+            # where the cluster's resource versions start: the history may cross a power of ten (versions are opaque strings; '1000' < '999' as strings)
+            'rv0': draw(st.sampled_from([100, 100, 985, 9990, 7]))}
 
 
 # ------------------------------------------------------------------------------------------ interpreter
@@ -119,7 +121,7 @@ class Run:
         self.sim = Sim(resources=[ResDef('kopf.dev', 'v1', 'kopfexamples', 'KopfExample'),
                                   ResDef('kopf.dev', 'v1', 'kopfclusterthings', 'KopfClusterThing', namespaced=False),
                                   ResDef('kopf.dev', 'v1', 'clusterkopfpeerings', 'ClusterKopfPeering', namespaced=False)],
-                       seed=sc.get('seed', 0))
+                       seed=sc.get('seed', 0), rv=sc.get('rv0', 100))
         self.c = self.sim.cluster
         self.checkpoints = []      # dict(t, open=[(rkey, ns)], paused, namespaces, crd)
         self.performed = []
